@@ -91,4 +91,30 @@ def emitCamera (xname yname : String) (x y aspect : Bool) : List String :=
 /-- `<scene>`: the default scene instance when there is one -/
 def emitSceneElem (hasScene : Bool) : List String := if hasScene then ["instance_visual_scene"] else []
 
+/-! ### Effect.save and the `<technique>` of profile_COMMON -/
+
+def shaderTags : List String := ["constant", "lambert", "phong", "blinn"]
+
+/-- children of `<technique>` after Effect.save with shading type `s`: the `<newparam>` elements go to the profile, the
+    shader elements of the other types are removed (the first of each), and when there is no `<s>` element yet a new one
+    is inserted in front of the first `<extra>` (at the end when there is none) -/
+def saveTechnique (kids : List String) (s : String) : List String :=
+  let k1 := kids.filter (· != "newparam")
+  let k2 := (shaderTags.filter (· != s)).foldl (fun acc t => acc.erase t) k1
+  if k2.contains s then k2
+  else
+    let i := k2.findIdx (· == "extra")
+    k2.take i ++ [s] ++ k2.drop i
+
+/-- … as it was before /repo 51e06da: the new shader element appended at the end -/
+def saveTechniqueAppend (kids : List String) (s : String) : List String :=
+  let k1 := kids.filter (· != "newparam")
+  let k2 := (shaderTags.filter (· != s)).foldl (fun acc t => acc.erase t) k1
+  if k2.contains s then k2 else k2 ++ [s]
+
+/-- the children of a schema-valid `<technique>`: (asset), images and newparams, the shader, extras -/
+def techKids (a : Bool) (mids : List String) (old : String) (n : Nat) : List String :=
+  (if a then ["asset"] else []) ++ mids ++ old :: List.replicate n "extra"
+
+
 end Pyc.Schema
